@@ -96,7 +96,14 @@ def stage_select(ctx, exe, n):
         if r0.startswith("C ok"):
             a = cl.kv(r0)
             want = expected_engine(u, u.model_in[0])
-            names = [l[2:] for l in u.real if l.startswith("N ")]
+            # soxr_engine() answers after creation; once a deferred initialisation has failed (fatal_error zeroes the control
+            # block) the answer is the placeholder "none"
+            names, wiped = [], False
+            for op, l in zip(u.model_in, u.real):
+                if op.split()[0] in ("setch", "setratio", "clear") and l.startswith("S ") and l[2:].startswith(c09.ENGINE_MSGS):
+                    wiped = True
+                if l.startswith("N "):
+                    names.append(a["engine"] if (wiped and l[2:] == "none") else l[2:])
             seen.add((a["engine"], want is None))
             ctx.hist("dist_engine", a["engine"])
             ctx.hist("dist_env_vars", sum(1 for k in u.meta["cfg"] if k.startswith("E.")))
